@@ -128,3 +128,5 @@ def run(ctx, prog):
                    "0x%x" % lit if lit == want[(size, fn.name)] else "0x%x, expected 0x%x" % (lit, want[(size, fn.name)]))
     ctx.floor(rule, "forge() constants", nb, 1)
     ctx.doc(rule, "power-of-ten tables within the property's tolerance; IEEE constants")
+    from rules import accum
+    accum.run(ctx, prog)
